@@ -495,9 +495,9 @@ pub fn check() -> Check {
         "Texts = built-in manifests, the example .rtm corpus, decompiler output of generated manifests, or raw bytes as (lossy) UTF-8, with 0-3 mutations: token deleted / duplicated / swapped, delimiter deleted / inserted (bracket imbalance, unterminated strings), dictionary tokens (keywords, odd literals, bad escapes, lone surrogates), huge integers, nesting at and far past the parser depth limit, very long lines, line endings rewritten to CRLF / CR / mixed, 1-12 leading lines, BOM, tabs, non-ASCII characters at any position, trailing garbage, truncation; compiled as each of the four manifest kinds. compile_any_manifest must return (twice the same, sometimes from a second thread); on Err, compile_error_diagnostics must render in both styles without panicking, identically twice, and show the source line of the error span (line computed from the span's char index). Non-trivial = text contains CR, or is rejected with an error after line 6 or after a non-ASCII character. Distinct = distinct decoded choice sequences.",
     )
     .assume("blob providers: none, accept-all mock, or the generated manifest's own blobs")
-    .part(Part::new("texts", 300_000, 10_000_000, 1536, case))
+    .part(Part::new("texts", 100_000, 5_000_000, 1536, case))
     // the same case function on short tapes: mostly built-in bases with one or two mutations
     // (cheap, and failures shrink to a handful of bytes)
-    .part(Part::new("short", 600_000, 30_000_000, 48, case))
+    .part(Part::new("short", 250_000, 12_000_000, 48, case))
     .min_nontrivial_pct(20.0)
 }
